@@ -56,6 +56,9 @@ PAYLOADS = {
     # texts whose sanitised form starts with a digit / is reached through a leading underscore or sign: the generator prefixes such
     # names, and what it prefixes must be the sanitised text
     "lead_digit_dq": '"', "lead_digit_idx_call": '"]; ' + CALL + "() #", "lead_us_dq": '"', "lead_plus_dq": '"',
+    # brace groups that are not a placeholder name: replacement fields of str.format / f-strings / % templates holding an expression
+    "fmt_call": "{" + CALL + "()}", "fmt_semicolon": "{;" + CALL + "}", "fmt_attr": "{0." + CALL + "}", "fmt_conv": "{" + CALL + "!r:>{" + CALL + "}}",
+    "pct_call": "%(" + CALL + ")s",
 }
 
 
